@@ -111,6 +111,7 @@ var fns = []fnInfo{
 	{"op/properties.go", "", "Centroid", "op_Centroid", false, "opcentroid"},
 	{"op/properties.go", "", "Area", "op_Area_Polygon", false, "case:Polygon"},
 	{"op/properties.go", "", "Area", "op_Area_MultiPolygon", false, "case:MultiPolygon"},
+	{"op/properties.go", "", "Area", "op_Area_GeometryCollection", false, "case:GeometryCollection"},
 	{"area.go", "", "centroidAxisScale", "centroidAxisScale", false, "axisscale"},
 	{"area.go", "", "centroidScale", "centroidScale", false, ""},
 	{"area.go", "Polygon", "scaled", "polygon_scaled", false, ""},
@@ -131,6 +132,7 @@ var fns = []fnInfo{
 	{"op/properties.go", "", "length", "op_length", true, ""},
 	{"op/properties.go", "", "Length", "op_Length_LineString", true, "case:LineString"},
 	{"op/properties.go", "", "Length", "op_Length_MultiLineString", true, "case:MultiLineString"},
+	{"op/properties.go", "", "Length", "op_Length_GeometryCollection", true, "case:GeometryCollection"},
 	{"linestring.go", "LineString", "Length", "lineString_Length", true, ""},
 	{"multilinestring.go", "MultiLineString", "Length", "multiLineString_Length", true, ""},
 	{"simplify.go", "", "pointSubtract", "pointSubtract", true, ""},
@@ -148,6 +150,7 @@ var elemType = map[string]string{
 	"LineString": "Point", "Path": "Point", "[]Point": "Point", "MultiPoint": "Point",
 	"MultiLineString": "LineString", "Polygon": "Path", "[]Path": "Path",
 	"MultiPolygon": "Polygon", "[]Polygon": "Polygon", "[]*Bounds": "*Bounds",
+	"GeometryCollection": "Geom",
 }
 
 // translation of one function
@@ -159,6 +162,7 @@ type tr struct {
 	loop     int               // 0: function level, 1: loop body / branch without exits, 2: body of a loop with return/continue
 	guard    bool              // translating the range guard of a centroid function (see translate)
 	self     string            // what the function's call of itself inside the guard being translated denotes (the code below that guard)
+	openRec  bool              // the case being regenerated takes the function itself as the parameter `self` (GeometryCollection)
 	ctlNext  string            // in a loop body of kind 2: what `continue` and the end of the body yield
 }
 
@@ -206,6 +210,8 @@ func (t *tr) leanType(tn string) string {
 		return "(" + t.num() + " × " + t.num() + ")"
 	case "CAcc":
 		return "CAcc"
+	case "Geom": // an arbitrary geometry (member of a GeometryCollection): the shared value type of Common/Geom.lean
+		return "(GeomV.Geom " + t.num() + ")"
 	}
 	if et, ok := elemType[tn]; ok {
 		return "(List " + t.leanType(et) + ")"
@@ -296,6 +302,12 @@ var withinConst = map[string]string{"Outside": "Side.outside", "Inside": "Side.i
 func lookupCase(fi *fnInfo, argType string) *fnInfo {
 	if fi == nil || !strings.HasPrefix(fi.ret, "case:") {
 		return fi
+	}
+	if argType == "Geom" {
+		// the function called on a value whose dynamic type is not known (a member of a GeometryCollection): open
+		// recursion, the parameter `self` of the regenerated case (Ties.lean instantiates it with the model of the
+		// whole function)
+		return &fnInfo{file: fi.file, name: fi.name, lean: "self", rnum: fi.rnum, ret: "self"}
 	}
 	for i := range fns {
 		if fns[i].pkg() == fi.pkg() && fns[i].recv == "" && fns[i].name == fi.name && fns[i].ret == "case:"+argType {
@@ -398,6 +410,9 @@ func (t *tr) typeOf(e ast.Expr) string {
 			if fi := lookupFn(t.fi.pkg(), "", id.Name); fi != nil {
 				if strings.HasPrefix(fi.ret, "case:") && len(x.Args) == 1 {
 					fi = lookupCase(fi, t.typeOf(x.Args[0]))
+					if fi.ret == "self" {
+						return "float64"
+					}
 				}
 				return resultType[fi.lean]
 			}
@@ -786,6 +801,12 @@ func (t *tr) call(x *ast.CallExpr) string {
 					xfail("call of %s with %d arguments", f.Name, len(x.Args))
 				}
 				fi = lookupCase(fi, t.typeOf(x.Args[0]))
+				if fi.ret == "self" {
+					if f.Name != t.fi.name || !t.openRec {
+						xfail("call of %s on a geom.Geom outside its own GeometryCollection case", f.Name)
+					}
+					return "(← self " + t.expr(x.Args[0], "Geom") + ")"
+				}
 			}
 			argsOf(fi)
 			if variadic[fi.lean] && x.Ellipsis == token.NoPos {
@@ -2060,9 +2081,15 @@ func translateCase(fi fnInfo, fd *ast.FuncDecl) string {
 	if fi.rnum {
 		hdr = "{α : Type} [RNum α] "
 	}
+	note := ""
+	if T == "GeometryCollection" {
+		t.openRec = true
+		hdr += "(self : " + t.leanType("Geom") + " → Go.M " + t.leanType("float64") + ") "
+		note = " (its call of itself on a member, whose dynamic type is not known, is the parameter `self`)"
+	}
 	var body strings.Builder
 	t.block(stmts, "  ", "", &body)
-	return fmt.Sprintf("/-- %s: %s, case %s of its type switch -/\ndef %s %s(%s : %s) : Go.M %s := do\n%s", fi.file, fi.name, T, fi.lean, hdr, g, t.leanType(T), t.leanType("float64"), body.String())
+	return fmt.Sprintf("/-- %s: %s, case %s of its type switch%s -/\ndef %s %s(%s : %s) : Go.M %s := do\n%s", fi.file, fi.name, T, note, fi.lean, hdr, g, t.leanType(T), t.leanType("float64"), body.String())
 }
 
 func translate(fi fnInfo, fd *ast.FuncDecl) (text string) {
